@@ -52,7 +52,34 @@ def main(argv):
     return run_check(pid, tier, mod.run, seed, replay)
 
 
+class _SafeOut:
+    """stdout that survives a closed pipe (`check.py ... | head`): the verdict is the exit code and the evidence
+    file, never lost to a BrokenPipeError."""
+
+    def __init__(self, f):
+        self.f, self.dead = f, False
+
+    def write(self, s):
+        if not self.dead:
+            try:
+                return self.f.write(s)
+            except BrokenPipeError:
+                self.dead = True
+        return len(s)
+
+    def flush(self):
+        if not self.dead:
+            try:
+                self.f.flush()
+            except BrokenPipeError:
+                self.dead = True
+
+    def __getattr__(self, n):
+        return getattr(self.f, n)
+
+
 if __name__ == "__main__":
+    sys.stdout = _SafeOut(sys.stdout)
     code = main(sys.argv)
     sys.stdout.flush()
     os._exit(code)
